@@ -530,7 +530,11 @@ fn recover(
     // The WAL may only be dropped once the updates applied above are durable. Otherwise a power
     // loss right after the truncation would leave the manifest pointing at a state whose pages
     // are neither in the HT file nor in the WAL.
+    #[cfg(nomt_verif)]
+    crate::verif_hook::begin(crate::verif_hook::Kind::Fsync, std::os::fd::AsRawFd::as_raw_fd(ht_fd), 0, 0, "ht.recover.fsync")?;
     ht_fd.sync_all()?;
+    #[cfg(nomt_verif)]
+    crate::verif_hook::end(crate::verif_hook::Kind::Fsync, std::os::fd::AsRawFd::as_raw_fd(ht_fd), 0, 0, "ht.recover.fsync");
 
     // Finally, we collapse the WAL file and fsync.
     writeout::truncate_wal(wal_fd, true)?;
